@@ -708,9 +708,8 @@ func (d *Decimal) Reduce(x *Decimal) (*Decimal, int) {
 	neg := false
 	switch x.Sign() {
 	case 0:
-		nd = int(d.NumDigits())
 		d.SetInt64(0)
-		return d, nd - 1
+		return d, 0
 	case -1:
 		neg = true
 	}
